@@ -5,38 +5,43 @@
    always within 0..capacity and back to zero once every accepted request has finished (this is where size-accounting
    drift under concurrency shows up).  One verdict line per violated clause and round; the run continues.
 
-   lines: reset{round,cfg,heavy}  offer_end{req,res} (cancelled enqueues are not logged)  push_start{req}
+   lines: reset{round,cfg,heavy,fifo}  offer_end{req,res} (cancelled enqueues are not logged)  push_start{req}
           size{value+1}  shutdown_end  final_size{value+1}  hang{...} *)
 EXTENDS Integers, Sequences, FiniteSets, TLC, Json
 
 Log == ndJsonDeserialize("observed.ndjson")
 
-VARIABLES l, round, cap, accepted, refused, pushed, dup, sizeBad
+VARIABLES l, round, cap, accepted, refused, pushed, dup, sizeBad,
+          fifo, accSeq, pushSeq    \* rounds with ONE producer and ONE consumer (reset.fifo): acceptance order / hand-off order
 
-hvars == <<l, round, cap, accepted, refused, pushed, dup, sizeBad>>
+hvars == <<l, round, cap, accepted, refused, pushed, dup, sizeBad, fifo, accSeq, pushSeq>>
 E == Log[l]
 Is(e) == l <= Len(Log) /\ E.ev = e /\ l' = l + 1
 Report(clause, detail) == PrintT(<<"BEH", ToJson([round |-> round, clause |-> clause, detail |-> detail])>>)
 Brief(S) == [n |-> Cardinality(S), example |-> CHOOSE x \in S : TRUE]     \* sets can hold hundreds of requests
 
 HInit == l = 1 /\ round = 0 /\ cap = 0 /\ accepted = {} /\ refused = {} /\ pushed = {} /\ dup = {} /\ sizeBad = {}
+         /\ fifo = FALSE /\ accSeq = <<>> /\ pushSeq = <<>>
 
 HReset == /\ Is("reset") /\ round' = E.round /\ cap' = E.cfg.cap
           /\ accepted' = {} /\ refused' = {} /\ pushed' = {} /\ dup' = {} /\ sizeBad' = {}
+          /\ fifo' = E.fifo /\ accSeq' = <<>> /\ pushSeq' = <<>>
 
 HOfferEnd == /\ Is("offer_end")
              /\ accepted' = IF E.res = "ok" /\ E.size > 0 THEN accepted \cup {E.req} ELSE accepted
              /\ refused' = IF E.res \in {"full", "toolarge"} THEN refused \cup {E.req} ELSE refused
-             /\ UNCHANGED <<round, cap, pushed, dup, sizeBad>>
+             /\ accSeq' = IF fifo /\ E.res = "ok" /\ E.size > 0 THEN Append(accSeq, E.req) ELSE accSeq
+             /\ UNCHANGED <<round, cap, pushed, dup, sizeBad, fifo, pushSeq>>
 
 HPush == /\ Is("push_start")
          /\ dup' = IF E.req \in pushed THEN dup \cup {E.req} ELSE dup
          /\ pushed' = pushed \cup {E.req}
-         /\ UNCHANGED <<round, cap, accepted, refused, sizeBad>>
+         /\ pushSeq' = IF fifo THEN Append(pushSeq, E.req) ELSE pushSeq
+         /\ UNCHANGED <<round, cap, accepted, refused, sizeBad, fifo, accSeq>>
 
 HSize == /\ Is("size")
          /\ sizeBad' = IF E.value - 1 < 0 \/ E.value - 1 > cap THEN sizeBad \cup {E.value - 1} ELSE sizeBad
-         /\ UNCHANGED <<round, cap, accepted, refused, pushed, dup>>
+         /\ UNCHANGED <<round, cap, accepted, refused, pushed, dup, fifo, accSeq, pushSeq>>
 
 \* Shutdown of an in-memory queue returned: every accepted request was handed over exactly once, no refused one
 HShutEnd == /\ Is("shutdown_end")
@@ -44,14 +49,19 @@ HShutEnd == /\ Is("shutdown_end")
             /\ (accepted \ pushed # {} => Report("ExactlyOnce: accepted but never handed over", Brief(accepted \ pushed)))
             /\ (refused \cap pushed # {} => Report("RefusedNeverHanded", Brief(refused \cap pushed)))
             /\ (sizeBad # {} => Report("SizeBounds: reported size outside 0..capacity", Brief(sizeBad)))
-            /\ UNCHANGED <<round, cap, accepted, refused, pushed, dup, sizeBad>>
+            /\ ((fifo /\ pushSeq # accSeq) =>
+                  LET k == CHOOSE i \in 1..(Len(accSeq) + 1) : i > Len(accSeq) \/ i > Len(pushSeq) \/ accSeq[i] # pushSeq[i]
+                  IN Report("Fifo: single consumer, hand-off order differs from the acceptance order",
+                            [position |-> k, accepted |-> Len(accSeq), handed |-> Len(pushSeq),
+                             wanted |-> IF k <= Len(accSeq) THEN accSeq[k] ELSE "-", got |-> IF k <= Len(pushSeq) THEN pushSeq[k] ELSE "-"]))
+            /\ UNCHANGED <<round, cap, accepted, refused, pushed, dup, sizeBad, fifo, accSeq, pushSeq>>
 
 HFinal == /\ Is("final_size")
           /\ (E.value - 1 # 0 => Report("ZeroAtEnd: every accepted request finished but the reported size is not 0", E.value - 1))
-          /\ UNCHANGED <<round, cap, accepted, refused, pushed, dup, sizeBad>>
+          /\ UNCHANGED <<round, cap, accepted, refused, pushed, dup, sizeBad, fifo, accSeq, pushSeq>>
 
 HSkip == /\ l <= Len(Log) /\ E.ev \in {"shutdown_start", "hang", "note", "end", "offer_start", "push_end"} /\ l' = l + 1
-         /\ UNCHANGED <<round, cap, accepted, refused, pushed, dup, sizeBad>>
+         /\ UNCHANGED <<round, cap, accepted, refused, pushed, dup, sizeBad, fifo, accSeq, pushSeq>>
 
 HNext == HReset \/ HOfferEnd \/ HPush \/ HSize \/ HShutEnd \/ HFinal \/ HSkip
 HSpec == HInit /\ [][HNext]_hvars
